@@ -487,7 +487,7 @@ pub fn cmd_check(prop: Prop, tier: &str) -> i32 {
         batch: if thorough { 2000 } else { 500 },
         workers,
         time_budget_s: if thorough { envn("SMTSIM_THOROUGH_SECONDS", 900) } else { 0 },
-        fp_mask: if thorough { 63 } else { 0 },
+        fp_mask: if thorough { 15 } else { 0 },
         mode: "check".to_string(),
         bins,
     };
